@@ -33,7 +33,7 @@ DecString(n, bs) ==
                  IN IF h = 0 THEN [ok |-> TRUE, bytes |-> raw, rest |-> after, either |-> ei]
                     ELSE LET hd == Decode(raw) IN
                          IF hd.ok THEN [ok |-> TRUE, bytes |-> hd.bytes, rest |-> after, either |-> ei]
-                         ELSE [ok |-> FALSE, why |-> "invalid-huffman"]
+                         ELSE [ok |-> FALSE, why |-> hd.why]
 
 \* ---- an index with an n-bit prefix ----------------------------------------------------------------------------------
 DecIndex(n, bs) ==
